@@ -792,6 +792,12 @@ fn c07_case(ctx: &mut Ctx, case: &ProjectCase, mlog: &Path, history: &str, r: &m
 const CLEAN_SPELLINGS: [&[&str]; 6] = [&[], &["-N"], &["--needed"], &["-n"], &["-q", "-N"], &["-r", "--needed", "-j", "3"]];
 
 fn c07_strace(ctx: &mut Ctx, case: &ProjectCase, spelling: usize) {
+    // D7: a command outside the vocabulary (a run block that swallowed lines containing `>` ...)
+    // may create files nobody can know about: such projects are not judged
+    if model::evaluate(&case.files, "/nonexistent", case.trailing, &model::sources(&case.files)).out_of_domain.is_some() {
+        ctx.count("out_of_domain", 1);
+        return;
+    }
     let root = ctx.scratch.fresh();
     materialize(&root, &case.files, &case.dirs);
     let s0 = snap(&root);
